@@ -30,7 +30,7 @@ def cases(tier, seed):
     nxs = [2, 3, 5, 8] if tier == "quick" else [2, 3, 4, 5, 6, 7, 8]
     nys = [3, 5, 7, 11, 21] if tier == "quick" else list(range(3, 43, 2))
     blends = [0.0, 0.5, 1.0] if tier == "quick" else [0.0, 0.25, 0.5, 0.75, 1.0]
-    for wt in ["rect", "CRM", "CRM:jig", "CRM:alpha_2.75"]:
+    for wt in ["rect", "CRM", "CRM:jig", "CRM:alpha_2.75", "uCRM_based"]:
         for nx in nxs:
             for ny in nys:
                 for sc in blends:
@@ -41,7 +41,8 @@ def cases(tier, seed):
                                     span=10.0, root_chord=1.0, offset=[0.0, 0.0, 0.0]))
     n_rand = 150 if tier == "quick" else 3000
     for _ in range(n_rand):
-        out.append(dict(kind="gen", wing_type=str(rng.choice(["rect", "rect", "CRM", "CRM:jig", "CRM:alpha_2.75"])),
+        out.append(dict(kind="gen", wing_type=str(rng.choice(["rect", "rect", "rect", "CRM", "CRM:jig", "CRM:alpha_2.50", "CRM:alpha_2.75", "CRM:alpha_3.00", "CRM:alpha_3.25", "CRM:alpha_3.50",
+                                                  "CRM:alpha_3.75", "CRM:alpha_4.00", "CRM:jig_wind_tunnel", "uCRM_based"])),
                         num_x=int(rng.integers(2, 9)), num_y=int(2 * rng.integers(1, 21) + 1),
                         span_cos=float(rng.random()), chord_cos=float(rng.random()),
                         span=float(10 ** rng.uniform(-1, 2)), root_chord=float(10 ** rng.uniform(-1.5, 1)),
